@@ -43,12 +43,21 @@ type Case struct {
 
 func goName(scheme string) string { return strings.ToUpper(scheme[:1]) + scheme[1:] }
 
+// credFor is the credential of a scheme: text that is legal in the scheme's carrier and full of the
+// characters real keys contain (base64 alphabets with + / =, percent signs, ampersands, blanks where the
+// carrier allows them), so that a side which escapes or splits the text its own way is noticed.
 func credFor(s Scheme) (a, b string) {
 	switch s.Kind {
 	case KBasic:
-		return "user-" + s.Name, "pw:" + s.Name // a colon in the password is legal
+		return "user-" + s.Name + "+/=&%41", "pw:" + s.Name + ":+/= &%2B\u00e9" // colons in the password are legal
+	case KQuery:
+		return "Zm9v+" + s.Name + "/w==&x=%41 z#?;,", ""
+	case KHeader:
+		return "Zm9v+" + s.Name + "/w==&x=%41 z;,\"q\"", ""
+	case KCookie:
+		return "Zm9v+" + s.Name + "/w==&x=%41", "" // cookie-octets only (RFC 6265): net/http drops anything else
 	default:
-		return "cred-" + s.Name, ""
+		return "tok-" + s.Name + "._~+/w==", "" // RFC 6750 b64token
 	}
 }
 
